@@ -733,6 +733,8 @@ class Crate:
         self.unsafe = j.get('unsafe', [])
         self.impls = j.get('impls', [])
         self.fns = {}
+        import inline
+        self.inline_stats = inline.inline_crate(j) if not os.environ.get('CFR_NO_INLINE') else {'inlined': 0, 'dropped': [], 'sites': []}
         for f in j['fns']:
             self.fns[f['name']] = Fn(f, self)
         self.graph = j.get('graph', {'nodes': [], 'edges': [], 'leaves': [], 'roots': []})
